@@ -6,6 +6,7 @@ import (
 	"fmt"
 	"strconv"
 	"strings"
+	"sync"
 	"time"
 
 	"github.com/gofiber/fiber/v3"
@@ -22,7 +23,7 @@ import (
 // The AES-GCM nonce comes from crypto/rand, so the ciphertext bytes differ
 // between two executions of the same tape. Nothing that is logged, hashed or
 // put into a failure detail depends on them: only lengths, positions, xor
-// masks and the class of what the handler saw (see ecRun.class).
+// masks and the class of what the handler saw (see ecClient.class).
 
 func init() {
 	harness.Register(&harness.Engine{
@@ -35,13 +36,16 @@ func init() {
 			"and in the fault stratum 1-6 alterations of the browser's store, each applied to the freshly restored issued values: base64-digit substitution by xor mask / foreign byte at a drawn position (biased to the last digits), truncation at either end to a drawn length, " +
 			"extension at either end, a value encrypted under the foreign key, a forged value, exchange of two issued values, replay of an earlier issued value; " +
 			"12% of the fault runs additionally sweep one issued value of at most 160 bytes: a substitution at every position and a truncation to every length; " +
-			"distinct = hash of (configuration, per step (alteration, target, class of what the handler saw)); non-trivial = at least one alteration was applied to an encrypted cookie",
+			"the middleware runs with the default Encryptor/Decryptor or with a wrapping pair around the real functions that yields (and sometimes sleeps 1 ms) inside and, in the fault stratum, fails on the n-th call (Encryptor: the request may die or answer with any status, but nothing it writes may carry a plaintext; the issue is then repeated. Decryptor: the cookie must arrive empty or intact); " +
+			"35% of the runs are concurrent: 2-3 browsers with disjoint cookie names, each on its own connection task, run the whole sequence against the one middleware instance under a drawn preemption rate, all oracles per request; " +
+			"distinct = hash of (configuration, per client and step (alteration, target, class of what the handler saw)); non-trivial = an alteration was applied to an encrypted cookie, an injected Encryptor/Decryptor error fired, or two requests overlapped",
 		Assumptions: []string{
 			"plaintexts are drawn from cookie octets without DQUOTE, space, comma, semicolon and backslash and must survive the control round trip without the middleware; a value that does not is not used (probe_control_*)",
 			"alterations use printable cookie octets only, so that the request parser hands the altered text to the middleware as sent",
 			"an issued value moved to another encrypted name may come back as its own plaintext or as empty (the statement does not say whether the ciphertext is bound to the name); a value whose text is not the issued one but base64-decodes (RFC 4648 with padding, as encoding/base64.StdEncoding) to issued ciphertext bytes may come back as that plaintext or as empty",
 			"the nonce source is the real crypto/rand: the chance that a ciphertext contains a plaintext of 8 bytes or more, or that a forged value authenticates, is treated as zero",
-			"no scheduling or time is involved; requests are sequential",
+			"interleavings of concurrent requests are explored at the granularity of the yields inside the wrapped Encryptor/Decryptor, the 1 ms sleeps there, and fiber's own synchronisation operations",
+			"after an injected Encryptor error the middleware may kill the request (the connection task recovers the panic, as a server would close the connection) or answer with any status; only 'no plaintext on the wire' is required of that response",
 		},
 		Components: map[string]string{
 			"encryptcookie middleware, EncryptCookie/DecryptCookie, crypto/aes, crypto/cipher, crypto/rand": "real",
@@ -50,6 +54,7 @@ func init() {
 			"fasthttp accept loop / worker pool": "stub (harness.Conn)",
 			"application without the middleware (control)": "real app, same handlers",
 			"application before the key change (old key)":  "real second app with another key",
+			"Encryptor / Decryptor":                        "default (real) or a yielding / failing wrapper around the real EncryptCookie / DecryptCookie, chosen per run",
 		},
 	})
 }
@@ -80,37 +85,94 @@ type ecIssue struct {
 }
 
 type ecOp struct {
-	sets []*ecCookie
-	vals []string
-	fail bool
-	seen map[string]string
+	cl        *ecClient
+	sets      []*ecCookie
+	vals      []string
+	fail      bool
+	seen      map[string]string
+	encFailed bool            // an injected Encryptor error fired in this request
+	decFailed map[string]bool // values for which an injected Decryptor error fired
 }
 
-type ecRun struct {
-	s       *simrt.Sim
-	cookies []*ecCookie
-	issues  []*ecIssue // every value issued by the current app for an encrypted name
+type ecPlan struct {
+	failAfterSet bool
+	reissue      bool
+	sweep        bool
+	nsteps       int
+	stepKinds    []string
+	ncook        int
+}
+
+// ecEnv is what all clients of one run share: the apps (one middleware
+// instance), the keys and the wrapped Encryptor / Decryptor.
+type ecEnv struct {
+	s          *simrt.Sim
+	ops        []*ecOp
+	opOfTask   map[int]*ecOp
+	clients    []*ecClient
+	key        string
+	otherKey   string
+	oldKey     string
+	otherLen   int
+	except     []string
+	keyChange  bool
+	faults     bool
+	yields     bool
+	sleepPm    int
+	encCalls   int
+	failEncAt  int
+	decCalls   int
+	failDecAt  int
+	inflight   int
+	overlapped bool
+	fired      int
+	appCur     *fiber.App
+	appCtl     *fiber.App
+	appOld     *fiber.App
+}
+
+type ecClient struct {
+	env      *ecEnv
+	s        *simrt.Sim
+	id       int
+	tag      string
+	plan     ecPlan
+	cookies  []*ecCookie
+	names    []string
+	issues   []*ecIssue // every value issued by the current app for an encrypted name of this client
+	b        *harness.Browser
+	connCur  *harness.Conn
+	connCtl  *harness.Conn
+	connOld  *harness.Conn
+	h        *hasher
+	altered  int
+	longUsed bool
+	dead     bool
 }
 
 // class describes a value seen by the handler without revealing ciphertext bytes.
-func (r *ecRun) class(seen, sent string) string {
+func (cl *ecClient) class(seen, sent string) string {
 	switch {
 	case seen == "":
 		return "empty"
 	case seen == sent:
 		return fmt.Sprintf("the text as sent (%d bytes)", len(sent))
 	}
-	for _, c := range r.cookies {
-		if seen == c.plain {
-			return fmt.Sprintf("the plaintext of %s", c.name)
+	for _, o := range cl.env.clients {
+		for _, c := range o.cookies {
+			if seen == c.plain {
+				return fmt.Sprintf("the plaintext of %s", c.name)
+			}
 		}
 	}
-	for _, is := range r.issues {
-		if seen == is.plain {
-			return fmt.Sprintf("an earlier plaintext of %s", is.name)
-		}
-		if seen == is.text {
-			return fmt.Sprintf("an issued ciphertext text of %s", is.name)
+	for _, o := range cl.env.clients {
+		for _, is := range o.issues {
+			if seen == is.plain {
+				return fmt.Sprintf("an earlier plaintext of %s", is.name)
+			}
+			if seen == is.text {
+				return fmt.Sprintf("an issued ciphertext text of %s", is.name)
+			}
 		}
 	}
 	return fmt.Sprintf("other text (%d bytes)", len(seen))
@@ -132,210 +194,238 @@ func ecKey(s *simrt.Sim, n int) string {
 	return base64.StdEncoding.EncodeToString(b)
 }
 
-func enccookieMain(s *simrt.Sim, info *harness.RunInfo) {
-	s.SetPreempt(0)
-	faults := s.Chance(500)
-	info.Faults = faults
-	// the plan of the run comes first on the tape, the bulk (keys, values,
-	// positions) afterwards: minimised tapes stay aligned
-	keyLen := simrt.PickS(s, 32, 16, 24)
-	otherLen := simrt.PickS(s, 32, 16, 24)
-	oldLen := simrt.PickS(s, 32, 16, 24)
-	keyChange := faults && s.Chance(250)
-	failAfterSet := s.Chance(150)
-	reissue := s.Chance(300)
-	sweep := faults && s.Chance(120)
-	nsteps := s.Range(1, 6)
-	var stepKinds []string
-	for i := 0; i < 6; i++ {
-		stepKinds = append(stepKinds, simrt.PickS(s, "substitute", "truncate", "extend", "foreign-key", "forge", "swap", "replay", "substitute", "truncate"))
+func (env *ecEnv) encrypt(v, k string) (string, error) {
+	s := env.s
+	env.encCalls++
+	n := env.encCalls
+	op := env.opOfTask[simrt.TaskID()]
+	if env.yields {
+		simrt.Yield(2001)
+		if s.Chance(env.sleepPm) {
+			simrt.Sleep(time.Millisecond)
+		}
 	}
-	ncook := s.Range(1, 4)
-	exceptAny := s.Chance(400)
-	key := ecKey(s, keyLen)
-	otherKey := ecKey(s, otherLen)
-	oldKey := ecKey(s, oldLen)
-	if otherKey == key || oldKey == key {
-		// all-zero tapes: keep the keys different
-		otherKey = base64.StdEncoding.EncodeToString(bytes.Repeat([]byte{0x5a}, otherLen))
-		oldKey = base64.StdEncoding.EncodeToString(bytes.Repeat([]byte{0xa5}, oldLen))
+	if n == env.failEncAt {
+		s.Count("fault_encryptor_error")
+		env.fired++
+		if op != nil {
+			op.encFailed = true
+		}
+		s.Logf("Encryptor call %d fails (injected)", n)
+		return "", harness.ErrInjected
 	}
+	out, err := encryptcookie.EncryptCookie(v, k)
+	if env.yields {
+		simrt.Yield(2002)
+	}
+	return out, err
+}
 
-	pool := []string{"sid", "sid2", "s", "token", "c_k-1", "x-y.z", "prefs", "A"}
-	r := &ecRun{s: s}
-	start := s.Draw(len(pool))
-	longUsed := false
-	var except []string
-	for i := 0; i < ncook; i++ {
-		c := &ecCookie{name: pool[(start+i*simrt.PickS(s, 1, 3, 5))%len(pool)], usable: true}
-		dup := false
-		for _, o := range r.cookies {
-			if o.name == c.name {
-				dup = true
+func (env *ecEnv) decrypt(v, k string) (string, error) {
+	s := env.s
+	env.decCalls++
+	n := env.decCalls
+	op := env.opOfTask[simrt.TaskID()]
+	if env.yields {
+		simrt.Yield(2003)
+		if s.Chance(env.sleepPm / 2) {
+			simrt.Sleep(time.Millisecond)
+		}
+	}
+	if n == env.failDecAt {
+		s.Count("fault_decryptor_error")
+		env.fired++
+		if op != nil {
+			if op.decFailed == nil {
+				op.decFailed = map[string]bool{}
 			}
+			op.decFailed[strings.Clone(v)] = true
 		}
-		if dup {
-			continue
-		}
-		if exceptAny && s.Chance(350) {
-			c.except = true
-			except = append(except, c.name)
-		}
-		c.httpOnly = s.Chance(300)
-		c.maxAge = simrt.PickS(s, 0, 3600)
-		r.cookies = append(r.cookies, c)
+		s.Logf("Decryptor call %d fails (injected)", n)
+		return "", harness.ErrInjected
 	}
-	if exceptAny && s.Chance(300) {
-		except = append(except, "never-set")
-	}
-	genValue := func(i int) (string, string) {
-		k := s.Draw(6)
-		if k == 3 && longUsed {
-			k = 2
-		}
-		switch k {
-		case 0:
-			return "val-" + strconv.Itoa(i) + "-text-" + ecDrawString(s, ecB64, 3), "text"
-		case 1:
-			return "", "empty"
-		case 2:
-			return ecDrawString(s, ecPlain, s.Range(8, 48)), "octets"
-		case 3:
-			longUsed = true
-			return ecDrawString(s, ecPlain, s.Range(300, 1200)), "long"
-		case 4:
-			return base64.StdEncoding.EncodeToString([]byte(ecDrawString(s, ecPlain, s.Range(28, 45)))), "base64-like"
-		default:
-			return ecDrawString(s, ecPlain, s.Range(1, 7)), "short"
-		}
-	}
-	for i, c := range r.cookies {
-		c.plain, c.kind = genValue(i)
-	}
-	var cl strings.Builder
-	for _, c := range r.cookies {
-		fmt.Fprintf(&cl, " %s(except=%v %s/%d httpOnly=%v maxAge=%d)", c.name, c.except, c.kind, len(c.plain), c.httpOnly, c.maxAge)
-	}
-	cfgLine := fmt.Sprintf("faults=%v key=%dB foreign=%dB old=%dB keyChange=%v except=%v cookies:%s", faults, keyLen, otherLen, oldLen, keyChange, except, cl.String())
-	s.Logf("cfg %s", cfgLine)
+	return encryptcookie.DecryptCookie(v, k)
+}
 
-	// ---- apps ----
-	var ops []*ecOp
-	var names []string
-	for _, c := range r.cookies {
-		names = append(names, c.name)
-	}
-	mkApp := func(k string) *fiber.App {
-		app := fiber.New()
-		if k != "" {
-			cfg := encryptcookie.Config{Key: k}
-			if except != nil {
-				cfg.Except = append([]string(nil), except...)
-			}
-			app.Use(encryptcookie.New(cfg))
+func (env *ecEnv) mkApp(k string, wrap bool) *fiber.App {
+	app := fiber.New()
+	if k != "" {
+		cfg := encryptcookie.Config{Key: k}
+		if env.except != nil {
+			cfg.Except = append([]string(nil), env.except...)
 		}
-		app.Post("/set", func(c fiber.Ctx) error {
-			op := ops[atoi(c.Get("X-Op"))]
-			for i, ck := range op.sets {
-				c.Cookie(&fiber.Cookie{Name: ck.name, Value: op.vals[i], Path: "/", HTTPOnly: ck.httpOnly, MaxAge: ck.maxAge})
-			}
-			if op.fail {
-				return fiber.NewError(fiber.StatusInternalServerError, "handler failed after setting cookies")
-			}
-			return c.SendString("set")
-		})
-		app.Get("/get", func(c fiber.Ctx) error {
-			op := ops[atoi(c.Get("X-Op"))]
-			op.seen = map[string]string{}
-			for _, n := range names {
-				op.seen[n] = strings.Clone(c.Cookies(n))
-			}
-			return c.SendString("got")
-		})
-		app.Handler()
-		return app
+		if wrap {
+			cfg.Encryptor, cfg.Decryptor = env.encrypt, env.decrypt
+		}
+		app.Use(encryptcookie.New(cfg))
 	}
-	appCur, appCtl := mkApp(key), mkApp("")
-	connCur, connCtl := harness.NewConn(appCur, "10.0.0.1"), harness.NewConn(appCtl, "10.0.0.2")
+	app.Post("/set", func(c fiber.Ctx) error {
+		op := env.ops[atoi(c.Get("X-Op"))]
+		for i, ck := range op.sets {
+			c.Cookie(&fiber.Cookie{Name: ck.name, Value: op.vals[i], Path: "/", HTTPOnly: ck.httpOnly, MaxAge: ck.maxAge})
+		}
+		if op.fail {
+			return fiber.NewError(fiber.StatusInternalServerError, "handler failed after setting cookies")
+		}
+		return c.SendString("set")
+	})
+	app.Get("/get", func(c fiber.Ctx) error {
+		op := env.ops[atoi(c.Get("X-Op"))]
+		op.seen = map[string]string{}
+		for _, n := range op.cl.names {
+			op.seen[n] = strings.Clone(c.Cookies(n))
+		}
+		return c.SendString("got")
+	})
+	app.Handler()
+	return app
+}
 
-	panicked := false
-	do := func(conn *harness.Conn, b *harness.Browser, method, path string, op *ecOp) *harness.Resp {
-		ops = append(ops, op)
-		req := harness.Req{Method: method, Path: path, Headers: [][2]string{{"X-Op", strconv.Itoa(len(ops) - 1)}}}
-		if h := b.Header(); h != "" {
-			req.Headers = append(req.Headers, [2]string{"Cookie", h})
-		}
-		var resp *harness.Resp
-		func() {
-			defer func() {
-				if p := recover(); p != nil {
-					s.Fail("C20.panic", "%s %s with %d cookies panicked: %v", method, path, len(b.Cookies), p)
-					resp = &harness.Resp{ReadErr: fmt.Errorf("panic")}
-					panicked = true
+func (cl *ecClient) genValue(i int) (string, string) {
+	s := cl.s
+	k := s.Draw(6)
+	if k == 3 && cl.longUsed {
+		k = 2
+	}
+	switch k {
+	case 0:
+		return "val-" + strconv.Itoa(i) + "c" + strconv.Itoa(cl.id) + "-text-" + ecDrawString(s, ecB64, 3), "text"
+	case 1:
+		return "", "empty"
+	case 2:
+		return ecDrawString(s, ecPlain, s.Range(8, 48)), "octets"
+	case 3:
+		cl.longUsed = true
+		return ecDrawString(s, ecPlain, s.Range(300, 1200)), "long"
+	case 4:
+		return base64.StdEncoding.EncodeToString([]byte(ecDrawString(s, ecPlain, s.Range(28, 45)))), "base64-like"
+	default:
+		return ecDrawString(s, ecPlain, s.Range(1, 7)), "short"
+	}
+}
+
+func (cl *ecClient) setAll(list []*ecCookie, fail bool) *ecOp {
+	op := &ecOp{cl: cl, sets: list, fail: fail}
+	for _, c := range list {
+		op.vals = append(op.vals, c.plain)
+	}
+	return op
+}
+
+// do sends one request on *conn. A panic of the request is recovered here,
+// as the connection goroutine of a server would; the connection is replaced.
+func (cl *ecClient) do(conn **harness.Conn, b *harness.Browser, method, path string, op *ecOp) *harness.Resp {
+	env, s := cl.env, cl.s
+	op.cl = cl
+	env.ops = append(env.ops, op)
+	req := harness.Req{Method: method, Path: path, Headers: [][2]string{{"X-Op", strconv.Itoa(len(env.ops) - 1)}}}
+	if h := b.Header(); h != "" {
+		req.Headers = append(req.Headers, [2]string{"Cookie", h})
+	}
+	var resp *harness.Resp
+	tid := simrt.TaskID()
+	env.opOfTask[tid] = op
+	env.inflight++
+	if env.inflight > 1 && !env.overlapped {
+		env.overlapped = true
+		s.Count("probe_requests_overlapped")
+	}
+	func() {
+		defer func() {
+			if p := recover(); p != nil {
+				resp = &harness.Resp{ReadErr: fmt.Errorf("request died")}
+				old := *conn
+				*conn = harness.NewConn(old.App, fmt.Sprintf("10.0.%d.9", cl.id))
+				if op.encFailed {
+					s.Count("probe_encryptor_error_killed_request")
+					s.Logf("%s%s %s: the request died after the injected Encryptor error (no response)", cl.tag, method, path)
+					return
 				}
-			}()
-			resp = conn.Do(req.Bytes())
+				s.Fail("C20.panic", "%s%s %s with %d cookies panicked: %v", cl.tag, method, path, len(b.Cookies), p)
+				cl.dead = true
+			}
 		}()
-		return resp
-	}
-	setAll := func(list []*ecCookie, fail bool) *ecOp {
-		op := &ecOp{sets: list, fail: fail}
-		for _, c := range list {
-			op.vals = append(op.vals, c.plain)
-		}
-		return op
-	}
+		resp = (*conn).Do(req.Bytes())
+	}()
+	env.inflight--
+	delete(env.opOfTask, tid)
+	return resp
+}
 
-	// ---- control: the values survive fiber + fasthttp + the browser without the middleware ----
-	bc := harness.NewBrowser("control")
-	resp := do(connCtl, bc, "POST", "/set", setAll(r.cookies, false))
-	if _, err := bc.Apply(resp, "POST"); err != nil || resp.ReadErr != nil {
-		s.Count("probe_control_response_unparsable")
-		s.Logf("control: response not usable (%v / %v), run skipped", err, resp.ReadErr)
+// wire: no response may carry the plaintext of an encrypted cookie, whatever its status.
+func (cl *ecClient) wire(resp *harness.Resp, own []*ecCookie, label string) {
+	if len(resp.Raw) == 0 {
 		return
 	}
-	gop := &ecOp{}
-	resp = do(connCtl, bc, "GET", "/get", gop)
-	for _, c := range r.cookies {
-		if resp.ReadErr != nil || gop.seen == nil || gop.seen[c.name] != c.plain {
-			c.usable = false
-			s.Count("probe_control_value_not_round_tripped")
-			s.Logf("control: value of %s (%s, %d bytes) does not survive without the middleware; not used", c.name, c.kind, len(c.plain))
+	env, s := cl.env, cl.s
+	for _, o := range env.clients {
+		for _, c := range o.cookies {
+			if c.except || len(c.plain) < 8 || !bytes.Contains(resp.Raw, []byte(c.plain)) {
+				continue
+			}
+			legit := false
+			for _, o2 := range env.clients {
+				for _, e := range o2.cookies {
+					if e.except && strings.Contains(e.plain, c.plain) {
+						legit = true
+					}
+				}
+			}
+			if !legit {
+				s.Fail("C20.plaintext-on-wire", "%s: the response (status %d) carries the plaintext of cookie %s (%s, %d bytes)", label, resp.Status, c.name, c.kind, len(c.plain))
+			}
 		}
 	}
-	var use []*ecCookie
-	for _, c := range r.cookies {
-		if c.usable {
-			use = append(use, c)
+	// short plaintexts: compare the values of this response's own cookies
+	if hr, err := resp.ParseStrict("POST"); err == nil {
+		for _, hc := range hr.Cookies() {
+			for _, c := range own {
+				if !c.except && c.name == hc.Name && c.plain != "" && hc.Value == c.plain {
+					s.Fail("C20.plaintext-on-wire", "%s: cookie %s reached the client (status %d) with the handler's plaintext (%s, %d bytes) as its value", label, c.name, resp.Status, c.kind, len(c.plain))
+				}
+			}
 		}
 	}
-	if len(use) != len(r.cookies) {
-		r.cookies = use
-		names = names[:0]
-		for _, c := range use {
-			names = append(names, c.name)
-		}
-	}
-	if len(r.cookies) == 0 {
-		return
-	}
+}
 
-	h := newHasher().str(cfgLine)
-	b := harness.NewBrowser("b1")
-
-	// issue: POST /set on an app, store the response in the browser, check the wire
-	issue := func(conn *harness.Conn, list []*ecCookie, fail bool, current bool, label string) bool {
-		op := setAll(list, fail)
-		resp := do(conn, b, "POST", "/set", op)
-		if panicked {
+// issue: POST /set on an app, store the response in the browser, check the wire.
+func (cl *ecClient) issue(conn **harness.Conn, list []*ecCookie, fail bool, current bool, label string) bool {
+	s, b := cl.s, cl.b
+	label = cl.tag + label
+	for attempt := 0; ; attempt++ {
+		op := cl.setAll(list, fail)
+		resp := cl.do(conn, b, "POST", "/set", op)
+		if cl.dead {
 			return false
+		}
+		cl.wire(resp, list, label)
+		if op.encFailed {
+			// whatever came back, the cookies count as not issued; the server is asked again
+			s.Logf("%s: Encryptor error injected, response status=%d bytes=%d; asking again", label, resp.Status, len(resp.Raw))
+			if s.Failed() || attempt > 2 {
+				return false
+			}
+			continue
 		}
 		if resp.ReadErr != nil {
 			s.Fail("C20.harness", "%s: request not served: %v", label, resp.ReadErr)
 			return false
 		}
-		if _, err := b.Apply(resp, "POST"); err != nil {
+		hr, err := b.Apply(resp, "POST")
+		if err != nil {
 			s.Fail("C20.set-cookie-unparsable", "%s: a strict client cannot parse the response that sets %d cookies (it could without the middleware): %v", label, len(list), err)
+			return false
+		}
+		// exactly the cookies the handler set
+		var got, want []string
+		for _, hc := range hr.Cookies() {
+			got = append(got, hc.Name)
+		}
+		for _, c := range list {
+			want = append(want, c.name)
+		}
+		if !sameMulti(got, want) && !(fail && len(got) == 0) {
+			s.Fail("C20.response-cookie-set", "%s: the handler set the cookies %v, the response (status %d) carries %v", label, want, resp.Status, got)
 			return false
 		}
 		var lens []string
@@ -352,25 +442,12 @@ func enccookieMain(s *simrt.Sim, info *harness.RunInfo) {
 			lens = append(lens, c.name+":"+strconv.Itoa(len(got)))
 			if c.except {
 				if got != c.plain {
-					s.Fail("C20.except-out-changed", "%s: %s is in Except, the handler set %s (%d bytes), the client received %s", label, c.name, c.kind, len(c.plain), r.class(got, ""))
+					s.Fail("C20.except-out-changed", "%s: %s is in Except, the handler set %s (%d bytes), the client received %s", label, c.name, c.kind, len(c.plain), cl.class(got, ""))
 				}
 				if current {
 					c.issued = got
 				}
 				continue
-			}
-			if c.plain != "" && got == c.plain {
-				s.Fail("C20.plaintext-on-wire", "%s: cookie %s reached the client with the handler's plaintext (%s, %d bytes) as its value", label, c.name, c.kind, len(c.plain))
-			} else if len(c.plain) >= 8 && bytes.Contains(resp.Raw, []byte(c.plain)) {
-				legit := false
-				for _, o := range list {
-					if o.except && strings.Contains(o.plain, c.plain) {
-						legit = true
-					}
-				}
-				if !legit {
-					s.Fail("C20.plaintext-on-wire", "%s: the response bytes contain the plaintext of cookie %s (%s, %d bytes)", label, c.name, c.kind, len(c.plain))
-				}
 			}
 			if current {
 				if c.issued != "" {
@@ -381,147 +458,182 @@ func enccookieMain(s *simrt.Sim, info *harness.RunInfo) {
 				if err != nil {
 					raw = nil
 				}
-				r.issues = append(r.issues, &ecIssue{name: c.name, plain: c.plain, text: got, raw: raw})
+				cl.issues = append(cl.issues, &ecIssue{name: c.name, plain: c.plain, text: got, raw: raw})
 			}
 		}
 		s.Logf("%s: status=%d stored value lengths %v fail=%v", label, resp.Status, lens, fail)
 		return true
 	}
+}
 
-	// look: GET /get with the browser's current store and judge every cookie
-	look := func(label, kind string, touched map[string]bool) {
-		sent := map[string]string{}
-		for _, c := range r.cookies {
-			sent[c.name], _ = b.Get(c.name)
-		}
-		op := &ecOp{}
-		resp := do(connCur, b, "GET", "/get", op)
-		if panicked {
-			return
-		}
-		if resp.ReadErr != nil || op.seen == nil {
-			s.Fail("C20.harness", "%s: request not served (status %d): %v", label, resp.Status, resp.ReadErr)
-			return
-		}
-		for _, c := range r.cookies {
-			seen, snt := op.seen[c.name], sent[c.name]
-			cls := r.class(seen, snt)
-			verdict := "ok"
-			switch {
-			case c.except:
-				if seen != snt {
-					verdict = "BAD"
-					s.Fail("C20.except-in-changed", "%s: %s is in Except, the client sent %d bytes (%s), the handler saw %s", label, c.name, len(snt), kind, cls)
+// look: GET /get with the browser's current store and judge every cookie.
+func (cl *ecClient) look(label, kind string, touched map[string]bool) {
+	s, b := cl.s, cl.b
+	label = cl.tag + label
+	sent := map[string]string{}
+	for _, c := range cl.cookies {
+		sent[c.name], _ = b.Get(c.name)
+	}
+	op := &ecOp{}
+	resp := cl.do(&cl.connCur, b, "GET", "/get", op)
+	if cl.dead {
+		return
+	}
+	if resp.ReadErr != nil || op.seen == nil {
+		s.Fail("C20.harness", "%s: request not served (status %d): %v", label, resp.Status, resp.ReadErr)
+		return
+	}
+	cl.wire(resp, nil, label)
+	if n := len(resp.Header["Set-Cookie"]); n > 0 {
+		s.Fail("C20.response-cookie-set", "%s: the handler set no cookie, the response carries %d Set-Cookie lines", label, n)
+	}
+	for _, c := range cl.cookies {
+		seen, snt := op.seen[c.name], sent[c.name]
+		cls := cl.class(seen, snt)
+		verdict := "ok"
+		switch {
+		case c.except:
+			if seen != snt {
+				verdict = "BAD"
+				s.Fail("C20.except-in-changed", "%s: %s is in Except, the client sent %d bytes (%s), the handler saw %s", label, c.name, len(snt), kind, cls)
+			}
+		case op.decFailed[snt]:
+			// the Decryptor itself failed for this value: empty, or intact
+			verdict = "decryptor-error"
+			if seen != "" && !(snt == c.issued && seen == c.plain) {
+				verdict = "BAD"
+				s.Fail("C20.decryptor-error-other-text", "%s: the Decryptor failed for cookie %s (%d bytes sent), the handler saw %s", label, c.name, len(snt), cls)
+			}
+		case snt == c.issued && !touched[c.name]:
+			if seen != c.plain {
+				verdict = "BAD"
+				s.Fail("C20.roundtrip", "%s: cookie %s (%s, %d bytes) was returned as issued, the handler saw %s", label, c.name, c.kind, len(c.plain), cls)
+			}
+		default:
+			allowed := []string{""}
+			why := "not issued under the current key"
+			dec, err := base64.StdEncoding.DecodeString(snt)
+			for _, is := range cl.issues {
+				switch {
+				case is.text == snt && is.name == c.name:
+					allowed, why = []string{is.plain}, "a value issued for this name under the current key"
+				case is.text == snt:
+					allowed, why = []string{is.plain, ""}, "a value issued for "+is.name+" under the current key"
+				case err == nil && is.raw != nil && bytes.Equal(dec, is.raw):
+					allowed, why = []string{is.plain, ""}, "decodes to the ciphertext bytes issued for "+is.name
+					s.Count("probe_alteration_decodes_to_issued_ciphertext")
+				default:
+					continue
 				}
-			case snt == c.issued && !touched[c.name]:
-				if seen != c.plain {
-					verdict = "BAD"
-					s.Fail("C20.roundtrip", "%s: cookie %s (%s, %d bytes) was returned as issued, the handler saw %s", label, c.name, c.kind, len(c.plain), cls)
-				}
-			default:
-				allowed := []string{""}
-				why := "not issued under the current key"
-				dec, err := base64.StdEncoding.DecodeString(snt)
-				for _, is := range r.issues {
-					switch {
-					case is.text == snt && is.name == c.name:
-						allowed, why = []string{is.plain}, "a value issued for this name under the current key"
-					case is.text == snt:
-						allowed, why = []string{is.plain, ""}, "a value issued for "+is.name+" under the current key"
-					case err == nil && is.raw != nil && bytes.Equal(dec, is.raw):
-						allowed, why = []string{is.plain, ""}, "decodes to the ciphertext bytes issued for "+is.name
-						s.Count("probe_alteration_decodes_to_issued_ciphertext")
-					default:
-						continue
-					}
-					break
-				}
-				okv := false
-				for _, a := range allowed {
-					if seen == a {
-						okv = true
-					}
-				}
-				if !okv {
-					verdict = "BAD"
-					id := map[string]string{"substitute": "C20.altered-accepted", "truncate": "C20.truncated-accepted", "extend": "C20.extended-accepted", "foreign-key": "C20.foreign-key-accepted",
-						"forge": "C20.forged-accepted", "swap": "C20.swapped-other-text", "replay": "C20.roundtrip", "old-key": "C20.old-key-accepted"}[kind]
-					if id == "" {
-						id = "C20.altered-accepted"
-					}
-					s.Fail(id, "%s: cookie %s (%s, %d bytes; issued text %d bytes) came back as %d bytes that are %s; the handler saw %s", label, c.name, c.kind, len(c.plain), len(c.issued), len(snt), why, cls)
+				break
+			}
+			okv := false
+			for _, a := range allowed {
+				if seen == a {
+					okv = true
 				}
 			}
-			s.Logf("%s: %s sent=%dB saw %s [%s]", label, c.name, len(snt), cls, verdict)
-			h.str(label).str(c.name).str(cls)
+			if !okv {
+				verdict = "BAD"
+				id := map[string]string{"substitute": "C20.altered-accepted", "truncate": "C20.truncated-accepted", "extend": "C20.extended-accepted", "foreign-key": "C20.foreign-key-accepted",
+					"forge": "C20.forged-accepted", "swap": "C20.swapped-other-text", "replay": "C20.roundtrip", "old-key": "C20.old-key-accepted"}[kind]
+				if id == "" {
+					id = "C20.altered-accepted"
+				}
+				s.Fail(id, "%s: cookie %s (%s, %d bytes; issued text %d bytes) came back as %d bytes that are %s; the handler saw %s", label, c.name, c.kind, len(c.plain), len(c.issued), len(snt), why, cls)
+			}
+		}
+		s.Logf("%s: %s sent=%dB saw %s [%s]", label, c.name, len(snt), cls, verdict)
+		cl.h.str(label).str(c.name).str(cls)
+	}
+}
+
+// control: the values survive fiber + fasthttp + the browser without the middleware.
+func (cl *ecClient) control(list []*ecCookie) bool {
+	s := cl.s
+	bc := harness.NewBrowser("control")
+	resp := cl.do(&cl.connCtl, bc, "POST", "/set", cl.setAll(list, false))
+	if cl.dead {
+		return false
+	}
+	if _, err := bc.Apply(resp, "POST"); err != nil || resp.ReadErr != nil {
+		s.Count("probe_control_response_unparsable")
+		s.Logf("%scontrol: response not usable (%v / %v)", cl.tag, err, resp.ReadErr)
+		return false
+	}
+	gop := &ecOp{}
+	resp = cl.do(&cl.connCtl, bc, "GET", "/get", gop)
+	ok := !cl.dead
+	for _, c := range list {
+		if resp.ReadErr != nil || gop.seen == nil || gop.seen[c.name] != c.plain {
+			c.usable, ok = false, false
+			s.Count("probe_control_value_not_round_tripped")
+			s.Logf("%scontrol: value of %s (%s, %d bytes) does not survive without the middleware; not used", cl.tag, c.name, c.kind, len(c.plain))
 		}
 	}
+	return ok
+}
 
+func (cl *ecClient) restore() {
+	for _, c := range cl.cookies {
+		cl.b.Set(c.name, c.issued)
+	}
+}
+
+// run is the life of one browser against the current app.
+func (cl *ecClient) run() {
+	env, s, b := cl.env, cl.s, cl.b
+	if len(cl.cookies) == 0 {
+		return
+	}
 	// ---- issued before a key change ----
-	if keyChange {
-		appOld := mkApp(oldKey)
-		connOld := harness.NewConn(appOld, "10.0.0.3")
-		if issue(connOld, r.cookies, false, false, "issue under the old key") {
+	if env.keyChange {
+		if cl.issue(&cl.connOld, cl.cookies, false, false, "issue under the old key") {
 			s.Count("fault_issued_before_key_change")
 			t := map[string]bool{}
-			for _, c := range r.cookies {
+			for _, c := range cl.cookies {
 				t[c.name] = true
 			}
-			look("after the key change", "old-key", t)
+			cl.look("after the key change", "old-key", t)
+		}
+		if cl.dead {
+			return
 		}
 	}
 
 	// ---- issue, untouched round trip, re-issue ----
-	if !issue(connCur, r.cookies, failAfterSet, true, "issue") {
+	if !cl.issue(&cl.connCur, cl.cookies, cl.plan.failAfterSet, true, "issue") {
 		return
 	}
-	look("untouched", "none", nil)
-	if reissue {
+	cl.look("untouched", "none", nil)
+	if cl.plan.reissue {
 		var sub []*ecCookie
-		for i, c := range r.cookies {
+		for i, c := range cl.cookies {
 			if s.Chance(600) {
-				c.plain, c.kind = genValue(10 + i)
+				c.plain, c.kind = cl.genValue(10 + i)
 				sub = append(sub, c)
 			}
 		}
 		if len(sub) > 0 {
-			// new values must pass the control too
-			cop := &ecOp{}
-			bc2 := harness.NewBrowser("control2")
-			resp := do(connCtl, bc2, "POST", "/set", setAll(sub, false))
-			_, err := bc2.Apply(resp, "POST")
-			resp2 := do(connCtl, bc2, "GET", "/get", cop)
-			okc := err == nil && resp.ReadErr == nil && resp2.ReadErr == nil && cop.seen != nil
-			for _, c := range sub {
-				if !okc || cop.seen[c.name] != c.plain {
-					okc = false
-				}
-			}
-			if !okc {
-				s.Count("probe_control_value_not_round_tripped")
-				s.Logf("control: a re-issued value does not survive without the middleware; run ends")
-				info.StateHash = h.h
+			if !cl.control(sub) {
+				s.Logf("%scontrol: a re-issued value does not survive without the middleware; client ends", cl.tag)
 				return
 			}
-			if !issue(connCur, sub, false, true, "re-issue of "+strconv.Itoa(len(sub))) {
+			if !cl.issue(&cl.connCur, sub, false, true, "re-issue of "+strconv.Itoa(len(sub))) {
 				return
 			}
-			look("untouched after re-issue", "none", nil)
+			cl.look("untouched after re-issue", "none", nil)
 		}
 	}
 
 	// ---- alterations by the untrusted peer ----
-	altered := 0
-	if faults {
-		for step := 0; step < nsteps && !s.Failed(); step++ {
-			// restore what the server issued
-			for _, c := range r.cookies {
-				b.Set(c.name, c.issued)
-			}
-			ti := s.Draw(len(r.cookies))
-			c := r.cookies[ti]
+	if env.faults {
+		for step := 0; step < cl.plan.nsteps && !s.Failed() && !cl.dead; step++ {
+			cl.restore()
+			ti := s.Draw(len(cl.cookies))
+			c := cl.cookies[ti]
 			text := c.issued
-			kind := stepKinds[step]
+			kind := cl.plan.stepKinds[step]
 			var desc string
 			var nt string
 			touched := map[string]bool{c.name: true}
@@ -575,12 +687,12 @@ func enccookieMain(s *simrt.Sim, info *harness.RunInfo) {
 				if s.Chance(300) {
 					p = "admin"
 				}
-				v, err := encryptcookie.EncryptCookie(p, otherKey)
+				v, err := encryptcookie.EncryptCookie(p, env.otherKey)
 				if err != nil {
-					s.Fail("C20.harness", "EncryptCookie with a %d byte key: %v", otherLen, err)
+					s.Fail("C20.harness", "EncryptCookie with a %d byte key: %v", env.otherLen, err)
 					return
 				}
-				nt, desc = v, fmt.Sprintf("%d bytes plaintext encrypted under the foreign %d byte key", len(p), otherLen)
+				nt, desc = v, fmt.Sprintf("%d bytes plaintext encrypted under the foreign %d byte key", len(p), env.otherLen)
 			case "forge":
 				switch s.Draw(3) {
 				case 0:
@@ -594,11 +706,11 @@ func enccookieMain(s *simrt.Sim, info *harness.RunInfo) {
 					desc = fmt.Sprintf("%d arbitrary cookie octets", len(nt))
 				}
 			case "swap":
-				if len(r.cookies) < 2 {
+				if len(cl.cookies) < 2 {
 					continue
 				}
-				oj := (ti + 1 + s.Draw(len(r.cookies)-1)) % len(r.cookies)
-				o := r.cookies[oj]
+				oj := (ti + 1 + s.Draw(len(cl.cookies)-1)) % len(cl.cookies)
+				o := cl.cookies[oj]
 				if o.issued == c.issued {
 					continue
 				}
@@ -617,19 +729,19 @@ func enccookieMain(s *simrt.Sim, info *harness.RunInfo) {
 			b.Set(c.name, nt)
 			s.Count("fault_" + strings.ReplaceAll(kind, "-", "_"))
 			if !c.except {
-				altered++
+				cl.altered++
 			} else {
 				s.Count("probe_alteration_of_excepted_cookie")
 			}
 			label := fmt.Sprintf("step%d %s on %s (%s)", step, kind, c.name, desc)
-			h.str(kind).int(ti)
-			look(label, kind, touched)
+			cl.h.str(kind).int(ti)
+			cl.look(label, kind, touched)
 		}
 	}
 	// ---- sweep: every position and every length of one short issued value ----
-	if sweep && !s.Failed() {
+	if cl.plan.sweep && !s.Failed() && !cl.dead {
 		var c *ecCookie
-		for _, k := range r.cookies {
+		for _, k := range cl.cookies {
 			if !k.except && len(k.issued) > 0 && len(k.issued) <= 160 {
 				c = k
 				break
@@ -638,10 +750,8 @@ func enccookieMain(s *simrt.Sim, info *harness.RunInfo) {
 		if c != nil {
 			text := c.issued
 			s.Count("probe_sweep_runs")
-			for pos := 0; pos < len(text) && !s.Failed(); pos++ {
-				for _, k := range r.cookies {
-					b.Set(k.name, k.issued)
-				}
+			for pos := 0; pos < len(text) && !s.Failed() && !cl.dead; pos++ {
+				cl.restore()
 				var nt, desc string
 				if idx := strings.IndexByte(ecB64, text[pos]); idx >= 0 {
 					mask := 1 + s.Draw(63)
@@ -652,21 +762,169 @@ func enccookieMain(s *simrt.Sim, info *harness.RunInfo) {
 				}
 				b.Set(c.name, nt)
 				s.Count("fault_substitute")
-				altered++
-				look(fmt.Sprintf("sweep substitute on %s (%s)", c.name, desc), "substitute", map[string]bool{c.name: true})
+				cl.altered++
+				cl.look(fmt.Sprintf("sweep substitute on %s (%s)", c.name, desc), "substitute", map[string]bool{c.name: true})
 			}
-			for l := 0; l < len(text) && !s.Failed(); l++ {
-				for _, k := range r.cookies {
-					b.Set(k.name, k.issued)
-				}
+			for l := 0; l < len(text) && !s.Failed() && !cl.dead; l++ {
+				cl.restore()
 				b.Set(c.name, text[:l])
 				s.Count("fault_truncate")
-				altered++
-				look(fmt.Sprintf("sweep truncate on %s (first %d of %d bytes kept)", c.name, l, len(text)), "truncate", map[string]bool{c.name: true})
+				cl.altered++
+				cl.look(fmt.Sprintf("sweep truncate on %s (first %d of %d bytes kept)", c.name, l, len(text)), "truncate", map[string]bool{c.name: true})
 			}
 		}
 	}
+}
+
+func enccookieMain(s *simrt.Sim, info *harness.RunInfo) {
+	s.SetPreempt(0)
+	faults := s.Chance(500)
+	info.Faults = faults
+	env := &ecEnv{s: s, opOfTask: map[int]*ecOp{}, faults: faults}
+	// the plan of the run comes first on the tape, the bulk (keys, values,
+	// positions) afterwards: minimised tapes stay aligned
+	keyLen := simrt.PickS(s, 32, 16, 24)
+	env.otherLen = simrt.PickS(s, 32, 16, 24)
+	oldLen := simrt.PickS(s, 32, 16, 24)
+	env.keyChange = faults && s.Chance(250)
+	concurrent := s.Chance(350)
+	nclients := 1
+	if concurrent {
+		nclients = s.Range(2, 3)
+	}
+	preempt := 0
+	if concurrent {
+		preempt = simrt.PickS(s, 150, 50, 400, 0)
+		env.sleepPm = simrt.PickS(s, 200, 0, 500)
+	}
+	encFault := faults && s.Chance(250)
+	decFault := faults && s.Chance(150)
+	if encFault {
+		env.failEncAt = 1 + s.Draw(8)
+	}
+	if decFault {
+		env.failDecAt = 1 + s.Draw(12)
+	}
+	wrapped := concurrent || encFault || decFault || s.Chance(250)
+	env.yields = concurrent || (wrapped && s.Chance(300))
+	exceptAny := s.Chance(400)
+	plans := make([]ecPlan, nclients)
+	for i := range plans {
+		p := &plans[i]
+		p.failAfterSet = s.Chance(150)
+		p.reissue = s.Chance(300)
+		p.sweep = faults && s.Chance(120)
+		p.nsteps = s.Range(1, 6)
+		for j := 0; j < 6; j++ {
+			p.stepKinds = append(p.stepKinds, simrt.PickS(s, "substitute", "truncate", "extend", "foreign-key", "forge", "swap", "replay", "substitute", "truncate"))
+		}
+		p.ncook = s.Range(1, 4)
+	}
+	env.key = ecKey(s, keyLen)
+	env.otherKey = ecKey(s, env.otherLen)
+	env.oldKey = ecKey(s, oldLen)
+	if env.otherKey == env.key || env.oldKey == env.key {
+		// all-zero tapes: keep the keys different
+		env.otherKey = base64.StdEncoding.EncodeToString(bytes.Repeat([]byte{0x5a}, env.otherLen))
+		env.oldKey = base64.StdEncoding.EncodeToString(bytes.Repeat([]byte{0xa5}, oldLen))
+	}
+
+	pool := []string{"sid", "sid2", "s", "token", "c_k-1", "x-y.z", "prefs", "A"}
+	suffix := []string{"", ".b", ".c"}
+	var cl strings.Builder
+	for ci := 0; ci < nclients; ci++ {
+		c := &ecClient{env: env, s: s, id: ci, plan: plans[ci], h: newHasher(), b: harness.NewBrowser("b" + strconv.Itoa(ci))}
+		if nclients > 1 {
+			c.tag = "client" + strconv.Itoa(ci) + " "
+		}
+		start := s.Draw(len(pool))
+		for i := 0; i < c.plan.ncook; i++ {
+			ck := &ecCookie{name: pool[(start+i*simrt.PickS(s, 1, 3, 5))%len(pool)] + suffix[ci], usable: true}
+			dup := false
+			for _, o := range c.cookies {
+				if o.name == ck.name {
+					dup = true
+				}
+			}
+			if dup {
+				continue
+			}
+			if exceptAny && s.Chance(350) {
+				ck.except = true
+				env.except = append(env.except, ck.name)
+			}
+			ck.httpOnly = s.Chance(300)
+			ck.maxAge = simrt.PickS(s, 0, 3600)
+			c.cookies = append(c.cookies, ck)
+		}
+		for i, ck := range c.cookies {
+			ck.plain, ck.kind = c.genValue(i)
+			fmt.Fprintf(&cl, " %s(except=%v %s/%d httpOnly=%v maxAge=%d)", ck.name, ck.except, ck.kind, len(ck.plain), ck.httpOnly, ck.maxAge)
+		}
+		env.clients = append(env.clients, c)
+	}
+	if exceptAny && s.Chance(300) {
+		env.except = append(env.except, "never-set")
+	}
+	cfgLine := fmt.Sprintf("faults=%v key=%dB foreign=%dB old=%dB keyChange=%v clients=%d preempt=%d sleep=%d wrapped=%v yields=%v failEncAt=%d failDecAt=%d except=%v cookies:%s",
+		faults, keyLen, env.otherLen, oldLen, env.keyChange, nclients, preempt, env.sleepPm, wrapped, env.yields, env.failEncAt, env.failDecAt, env.except, cl.String())
+	s.Logf("cfg %s", cfgLine)
+
+	// ---- apps: one middleware instance for all clients ----
+	env.appCur, env.appCtl = env.mkApp(env.key, wrapped), env.mkApp("", false)
+	if env.keyChange {
+		env.appOld = env.mkApp(env.oldKey, false)
+	}
+	for _, c := range env.clients {
+		c.connCur = harness.NewConn(env.appCur, fmt.Sprintf("10.0.%d.1", c.id))
+		c.connCtl = harness.NewConn(env.appCtl, fmt.Sprintf("10.0.%d.2", c.id))
+		if env.keyChange {
+			c.connOld = harness.NewConn(env.appOld, fmt.Sprintf("10.0.%d.3", c.id))
+		}
+	}
+
+	// ---- control, sequentially ----
+	for _, c := range env.clients {
+		for _, ck := range c.cookies {
+			c.names = append(c.names, ck.name)
+		}
+		c.control(c.cookies)
+		c.names = nil
+		var use []*ecCookie
+		for _, ck := range c.cookies {
+			if ck.usable {
+				use = append(use, ck)
+				c.names = append(c.names, ck.name)
+			}
+		}
+		c.cookies = use
+	}
+
+	// ---- workload ----
+	if concurrent {
+		s.SetPreempt(preempt)
+		var wg sync.WaitGroup
+		for _, c := range env.clients {
+			wg.Add(1)
+			c := c
+			simrt.GoNamed("browser"+strconv.Itoa(c.id), func() {
+				defer wg.Done()
+				c.run()
+			})
+		}
+		join(&wg)
+		s.SetPreempt(0)
+	} else {
+		env.clients[0].run()
+	}
+
+	h := newHasher().str(cfgLine)
+	altered := 0
+	for _, c := range env.clients {
+		h.str(strconv.FormatUint(c.h.h, 16))
+		altered += c.altered
+	}
 	info.StateHash = h.h
-	info.Nontrivial = altered > 0
-	info.Sample = map[string]any{"config": cfgLine, "alterations": altered}
+	info.Nontrivial = altered > 0 || env.fired > 0 || env.overlapped
+	info.Sample = map[string]any{"config": cfgLine, "alterations": altered, "requests": len(env.ops)}
 }
